@@ -27,6 +27,16 @@ STRENGTHENED = {
     "C20-2": "missed; new oracle operations `spatial.<T>.inv(linked).{call,forward,tensor}` (gradient through the linked "
              "inverse w.r.t. the shared parameters, with and without the pre-forward hook)",
     "C20-3": "missed; new oracle operations `losses.ClosestPointDistance` / `LandmarkPointDistance` w.r.t. both point sets",
+    # round 2 (two seeds per property: cooperating edits / history-dependent / batch-dtype-argument-form dependent)
+    "C02-4": "missed; new oracle `origin_set` (origin(new) / origin_ / crop / pad on re-gridded grids with fractional stored size), "
+             "and the generated obligation now also ties the size the offset is computed from to `size_tensor()`",
+    "C04-4": "first caught only by C05 (new form: per-image source grids with ONE target Grid); C04 now enumerates `sample_single`",
+    "C04-5": "missed; the ramp oracle enumerates (size-changing step, index-only step) pairs on odd sizes (fractional stored size)",
+    "C11-4": "reverts the repair 35474ea; reported by C15 (`writes-shared-exp`), not by C11 — the property it breaks first is C15's",
+    "C13-5": "missed; streams and the affine oracle now also pass `align_corners` as the third positional argument",
+    "C16-4": "first only `no-failing-input-found`; new oracle `repeat` (same tensors twice: same value, arguments not written to)",
+    "C17-4": "missed; the `modules` oracle applies the SAME module instance to a second field of another shape",
+    "C19-5": "missed; new oracle `copy_layout` (copy / deepcopy / pickle of channels-last, permuted-view, sliced, flipped objects)",
 }
 
 
@@ -51,6 +61,9 @@ def main():
         rows.append((d.name, short(j.get("what_changed", ""), 230), short(j.get("what_it_needs_to_manifest", ""), 200),
                      "; ".join(caught) or "**missed**", STRENGTHENED.get(d.name, "")))
     out = ["## 12. Seeded changes and which checks catch them", "",
+           "Seeds -1..-3 of every property are round 1, -4 and -5 round 2 (written against the repaired tree, with the "
+           "instruction to avoid the obvious single-token edit of the main formula and to use cooperating edits, history / "
+           "cached state, or batch-size / dtype / argument-form dependence). "
            "Each change was written by a fresh sub-agent that was given only the property text and a private scratch git "
            "worktree of /repo (nothing from /verif). It compiles, passes the 88 tests, needs something specific to manifest "
            "and ships a `demo.py` that passes on the clean tree and fails with the patch. I confirm each one with "
